@@ -14,6 +14,7 @@ func init() {
 			ruleLookupFirst(c)
 			rulePtrTag(c)
 			ruleViaRegistry(c)
+			ruleOverlayKey(c)
 			rulePendingKey(c)
 			ruleKind(c)
 			ruleOptionScope(c)
